@@ -128,7 +128,28 @@ def run_layout(ctx):
 def random_cases(draw):
     packing = draw(st.sampled_from(["v1", "v1", "v2"]))
     return {"N": 4 * draw(st.integers(1, 8)), "K": (64 if packing == "v2" else 8) * draw(st.integers(1, 6)), "packing": packing, "reorder": draw(st.booleans()),
-            "layout": draw(st.sampled_from(["contig", "contig", "transposed", "col-slice", "row-slice"])), "seed": draw(st.integers(0, 2**16))}
+            "layout": draw(st.sampled_from(["contig", "contig", "transposed", "col-slice", "row-slice"])), "seed": draw(st.integers(0, 2**16)),
+            "via": draw(st.lists(st.sampled_from(VIAS), max_size=2))}
+
+
+# (__tensor_flatten__/__tensor_unflatten__ of AWQPackedTensor is NOT in the list: it raises on the unchanged tree — str(enum)
+# is not a literal — but flattening the packed payload is no clause of C15; see DESIGN 5)
+VIAS = ["detach", "data", "parameter", "clone", "alias"]
+
+
+def alias_of(p, how):
+    """the same packed tensor reached the way modules, optimizers and serializers reach it"""
+    if how == "detach":
+        return p.detach()
+    if how == "data":
+        return p.data
+    if how == "parameter":
+        return torch.nn.Parameter(p, requires_grad=False)
+    if how == "alias":
+        return torch.ops.aten.alias(p)
+    if how == "clone":
+        return p.clone()
+    raise ValueError(how)
 
 
 def exec_random(case):
@@ -146,12 +167,29 @@ def exec_random(case):
         return out.fail(f"{tag}/unpack-raises:{u.type}/{case['layout']}", u.text)
     if not torch.equal(u.to(torch.uint8), t):
         out.fail(f"{tag}/roundtrip/{case['layout']}", f"unpack(pack(t)) != t (N={N}, K={K}, {case['layout']})")
+    # the packed tensor reached through an alias / copy is the same matrix
+    p2, path = p, []
+    for how in case.get("via", []):
+        path.append(how)
+        p2 = cut(alias_of, p2, how)
+        if isinstance(p2, Raised):
+            out.fail(f"{tag}/via-{how}/raises:{p2.type}", p2.text)
+            break
+        u2 = cut(p2.unpack) if isinstance(p2, AWQPackedTensor) else p2
+        if isinstance(u2, Raised):
+            out.fail(f"{tag}/via-{how}/unpack-raises:{u2.type}", u2.text)
+            break
+        if tuple(u2.shape) != (N, K) or not torch.equal(u2.to(torch.uint8), t):
+            out.fail(f"{tag}/via-{how}/value{'-reorder' if case['reorder'] and case['packing'] == 'v1' else ''}", f"unpacked values differ after {'->'.join(path)} (N={N}, K={K})")
+            break
+        if not isinstance(p2, AWQPackedTensor):
+            break
     if case["packing"] == "v2":
         ref = REF_V2.pack_intweight(t.to(torch.int32).contiguous(), interleave=4, kstride=64)
         if not torch.equal(ref, p._data):
             out.fail(f"{tag}/differs-from-reference", f"N={N}, K={K}")
-    out.fingerprint = [N, K, case["packing"], case["reorder"], case["layout"], case["seed"] % 5]
-    out.klass = [case["packing"], f"layout-{case['layout']}"]
+    out.fingerprint = [N, K, case["packing"], case["reorder"], case["layout"], case["seed"] % 5, case.get("via", [])]
+    out.klass = [case["packing"], f"layout-{case['layout']}"] + [f"via-{h}" for h in case.get("via", [])]
     out.nontrivial = True
     return out
 
@@ -167,6 +205,7 @@ def equiv_cases(draw):
     c["group_size"] = 128
     c["grouped_input"] = draw(st.booleans())
     c["layout"] = draw(st.sampled_from(["contig", "contig", "transposed"]))
+    c["via"] = draw(st.sampled_from(["direct", "direct", "detach", "data", "parameter"]))
     return c
 
 
@@ -184,6 +223,15 @@ def exec_equiv(case):
     out.nontrivial = tuple(case["shape"]) not in ((128, 128), (256, 256), (512, 512), (1024, 1024)) and bool((zp != 0).any())
     if isinstance(a, Raised):
         return out.fail(f"equiv/construct-raises:{a.type}", a.text)
+    via = case.get("via", "direct")
+    if via != "direct":
+        # the way a frozen module, an optimizer or a serializer reaches the tensor
+        a = cut(alias_of, a, via)
+        if isinstance(a, Raised):
+            return out.fail(f"equiv/via-{via}/raises:{a.type}", a.text)
+        if not isinstance(a, AWQBitsTensor):
+            return out.fail(f"equiv/via-{via}/class", f"{type(a).__name__}")
+        out.klass.append(f"via-{via}")
     # (1) dequantizes to the same values as the standard representation, up to one float16 rounding per term
     da, dq = cut(a.dequantize), q.dequantize()
     if isinstance(da, Raised):
